@@ -28,6 +28,13 @@ accumulator, write-back) is property C06's `handler_is_vexec`; operand fetch / w
 tie.  `vector_integer_conformance_coverage` compares the proved rows with the REGENERATED opcode switches and lists
 what remains covered by the differential tie only.
 
+Third pass: the bodies `translate/lanedeep.go` translates since — the inner bit loops of `v_bfrev_b32` (both ALUs) and
+`v_ffbh_u32` as `List.foldl`, the `sort.Ints` of `v_med3_i32` as `C06.Go.sortInts3`, CDNA3 `v_cmp_f_u64` as a handler
+without lane loop writing the constant mask 0 — are proved conformant for all operands too (loop invariants and the sort
+lemma in `MgpuProofs/C03VConfLoops.lean`), and the lane `v_readfirstlane_b32` reads is proved to be the specification's
+(`readfirstlane_lane_conforms`, `readfirstlane_value_conforms`).  No float handler qualifies for a bit-level proof: every
+float-class body (also compares, class tests and the ABS/NEG modifier helpers) goes through `Float32.ofBits` / `Float.ofBits`.
+
 Findings of this proof round (see also `known_findings.d/C03V.json`, notes/C03V.md):
 * `v_lshl_add_u64` (both ALUs) shifted by `S1[5:0]`, the ISA by `S1[2:0]`: REPAIRED (round R4) — `*_runVLSHLADDU64_conforms`
   for every shift count; the bodies before the repair are kept (`lh_*_runVLSHLADDU64Old`) with
